@@ -1425,6 +1425,12 @@ __wrap_connect(int fd, const struct sockaddr *sa, socklen_t len)
 			errno = EAGAIN;
 			return -1;
 		}
+		// the backlog may also be full of other processes' connections at any time
+		if (cf->unix_backlog_full_p > 0 && sim_rand_chance(SIM_RNG_BUG, cf->unix_backlog_full_p)) {
+			sim_fault_fired("unix_connect_eagain", 1);
+			errno = EAGAIN;
+			return -1;
+		}
 	}
 	bool hole = false;
 	if (s->domain == AF_INET) {
@@ -2461,15 +2467,19 @@ simnet_poll_in(int fd)
 extern "C" void
 simnet_dump(void)
 {
+	// SIM_DUMP_NET=/path appends there (a run's stderr is only kept on a crash)
+	const char *dp = getenv("SIM_DUMP_NET");
+	FILE *df = (dp != NULL && dp[0] == '/') ? fopen(dp, "a") : NULL;
+	FILE *out = df != NULL ? df : stderr;
 	for (int i = 0; i < FD_MAX; i++) {
 		if (N.fds[i].kind != FK_SOCK)
 			continue;
 		Sock *s = (Sock *) N.fds[i].obj;
 		int   fd = FD_BASE + i;
-		fprintf(stderr, "fd %d state %d", fd, s->state);
+		fprintf(out, "fd %d state %d", fd, s->state);
 		if (s->conn != NULL) {
 			Half &me = s->conn->h[s->side];
-			fprintf(stderr, " conn %d side %d rcv %zu inq %zu eof %d rst %d reported %d peer_closed %d", s->conn->id,
+			fprintf(out, " conn %d side %d rcv %zu inq %zu eof %d rst %d reported %d peer_closed %d", s->conn->id,
 			    s->side, me.rcv.size(), me.inq.size(), (int) me.eof, (int) me.rst, (int) me.rst_reported,
 			    (int) s->conn->closed[1 - s->side]);
 		}
@@ -2479,8 +2489,10 @@ simnet_dump(void)
 			Epoll *e = (Epoll *) N.fds[j].obj;
 			auto   it = e->items.find(fd);
 			if (it != e->items.end())
-				fprintf(stderr, " [ep %d events %x armed %d]", FD_BASE + j, it->second.events, (int) it->second.armed);
+				fprintf(out, " [ep %d events %x armed %d]", FD_BASE + j, it->second.events, (int) it->second.armed);
 		}
-		fprintf(stderr, "\n");
+		fprintf(out, "\n");
 	}
+	if (df != NULL)
+		fclose(df);
 }
